@@ -1,6 +1,7 @@
 import Pendulum.Proofs.Range
 import Pendulum.Proofs.RangeAdd
 import Pendulum.Proofs.RangeCal
+import Pendulum.Proofs.IntervalGenRange
 /-! # C19 — IntervalPD.range() steps from the start without drift and stays inside
 
 `Range.range step inside amount fuel` is the loop of `Interval.range` (Model/Range.lean): `step i` =
@@ -390,5 +391,63 @@ example : fieldsOf (rangeIv (IntervalPD.mk false cD1 cD2 false) 0 2 10) =
 /-- inverted, 50-day steps -/
 example : walls (rangeIv (IntervalPD.mk false cB cA false) 3 50 10) =
     [1590969600000000, 1586649600000000, 1582329600000000] := by decide +kernel
+
+/-! ### The model is the code: regenerated definitions
+
+`Pendulum.Gen.Interval.range` / `range_loop` / `iter` / `contains` are produced from `Interval.range`, `__iter__`, `__contains__` of
+`src/pendulum/interval.py` on every run (tools/gen_interval.py): the `method`/`op` choice, the `while op(start, end)` loop with
+`yield start`, the step `getattr(self.start, method)(**{unit: i})` inside `try/except (OverflowError, ValueError): break`, and
+`i += amount`, over an abstract type of endpoints with `<=`, `>=` and the step as parameters (`Ops`).  `IntervalGen.OpsOk`: the
+parameters are what `Model/Range.lean` says they are (`leV`, `addUnit` with `±n`; tied by the correspondence run). -/
+section Regenerated
+open Pendulum.IntervalGen
+open Pendulum.Gen.Interval (Ops Self Method)
+
+/-- `Interval.range(unit, amount)` as written in the source yields exactly the model's `rangeIv` list — for EVERY fuel (so in
+    particular for every fuel ≥ the number of yielded values), either direction, absolute or not — and no exception escapes the
+    generator; `__iter__` is `range("days", 1)` -/
+theorem range_source_eq_model (ops : Ops EP) (self : Self EP) (iv : Iv) (u : Nat) (unit : String) (amount : Int) (fuel : Nat)
+    (hs : SelfRep self iv) (hops : OpsOk ops iv.start u unit) :
+    (Gen.Interval.range ops self unit amount fuel).1.map (fun e => Except.ok e.v) = rangeIv iv u amount fuel ∧
+    (Gen.Interval.range ops self unit amount fuel).2 = none ∧
+    Gen.Interval.iter ops self fuel = Gen.Interval.range ops self "days" 1 fuel :=
+  ⟨(range_eq ops self iv u unit amount fuel hs hops).1, (range_eq ops self iv u unit amount fuel hs hops).2, iter_eq ops self fuel⟩
+
+/-- stop conditions of the loop as written in the source: the comparison with the end fails → the generator ends; the step raises
+    OverflowError or ValueError → it ends after the value just yielded; any other exception escapes after that value -/
+theorem range_stop_source {α : Type} (ops : Ops α) (self : Self α) (unit : String) (amount : Int) (m : Method) (op : α → α → Bool)
+    (stop cur : α) (fuel : Nat) (i : Int) :
+    (op cur stop = false → Gen.Interval.range_loop ops self unit amount m op stop (fuel + 1) cur i = ([], none)) ∧
+    (∀ err, op cur stop = true → ops.call m self.start unit i = .error err →
+      Gen.Interval.range_loop ops self unit amount m op stop (fuel + 1) cur i =
+        if err = "OverflowError" ∨ err = "ValueError" then ([cur], none) else ([cur], some err)) := by
+  refine ⟨fun h => ?_, fun err h1 h2 => range_stop ops self unit amount m op stop cur fuel i err h1 h2⟩
+  rw [loop_step, h]; rfl
+
+/-- `item in interval` as written in the source (`self.start <= item <= self.end`) is the model's `containsIv` -/
+theorem contains_source_eq_model (ops : Ops EP) (self : Self EP) (iv : Iv) (item : EP) (hs : SelfRep self iv)
+    (hle : ∀ a b, ops.le a b = leV a.tag a.v b.tag b.v) (hge : ∀ a b, ops.ge a b = leV b.tag b.v a.tag a.v) :
+    Gen.Interval.contains ops self item = containsIv iv item.tag item.v :=
+  contains_eq ops self iv item hs hle hge
+
+/-- the hypotheses are satisfiable: the parameters read off the model satisfy `OpsOk` for every start, unit and keyword -/
+theorem range_hypotheses_satisfiable (start : EP) (u : Nat) (unit : String) : OpsOk (refOps u) start u unit :=
+  refOps_ok start u unit
+
+/-! non-vacuity: the generated loop on the monthly range from Jan 31 (`cA` … `cB`, forward), on the inverted one, and with a step
+that raises: ValueError ends the iteration, TypeError escapes -/
+def selfOf (iv : Iv) : Self EP := ⟨iv.start, iv.stop, iv.absolute, iv.invert, ⟨0, 0, 0, 0, 0, 0, 0, 0⟩, 0, 0⟩
+example : fieldsOf ((Gen.Interval.range (refOps 1) (selfOf (IntervalPD.mk false cA cB false)) "months" 1 10).1.map (fun e => .ok e.v)) =
+    [(2020, 1, 31, 43200000000), (2020, 2, 29, 43200000000), (2020, 3, 31, 43200000000), (2020, 4, 30, 43200000000),
+     (2020, 5, 31, 43200000000)] := by decide +kernel
+example : fieldsOf ((Gen.Interval.range (refOps 1) (selfOf (IntervalPD.mk false cB cA false)) "months" 1 10).1.map (fun e => .ok e.v)) =
+    [(2020, 6, 1, 0), (2020, 5, 1, 0), (2020, 4, 1, 0), (2020, 3, 1, 0), (2020, 2, 1, 0)] := by decide +kernel
+def raisingOps (err : String) : Ops Int := ⟨fun a b => decide (a ≤ b), fun a b => decide (a ≥ b), fun _ _ _ _ => .error err, id⟩
+example : Gen.Interval.range (raisingOps "ValueError") ⟨1, 5, false, false, ⟨0, 0, 0, 0, 0, 0, 0, 0⟩, 0, 0⟩ "parsecs" 1 10 = ([1], none) := by
+  decide
+example : Gen.Interval.range (raisingOps "TypeError") ⟨1, 5, false, false, ⟨0, 0, 0, 0, 0, 0, 0, 0⟩, 0, 0⟩ "days" 1 10 = ([1], some "TypeError") := by
+  decide
+
+end Regenerated
 
 end Pendulum.Props.C19
